@@ -126,7 +126,7 @@ class DictDecoder:
                 f"Expected an object for {clazz.__qualname__}, got: {type(data).__name__}"
             )
 
-        if set(data.keys()) == self.context.class_type.derived_keys:
+        if self.is_generic(data.keys(), self.context.class_type.derived_keys):
             return self.bind_derived_dataclass(data, clazz)
 
         meta = self.context.build(clazz)
@@ -197,7 +197,7 @@ class DictDecoder:
             An instance of the class type representing the parsed content.
         """
         qname = data["qname"]
-        xsi_type = data["type"]
+        xsi_type = data.get("type")
         params = data["value"]
 
         if not isinstance(params, dict):
@@ -304,16 +304,35 @@ class DictDecoder:
             return self.bind_text(meta, var, value)
 
         keys = value.keys()
-        if keys == self.context.class_type.any_keys:
+        if self.is_generic(keys, self.context.class_type.any_keys):
             # Bind data to AnyElement dataclass
             return self.bind_dataclass(value, self.context.class_type.any_element)
 
-        if keys == self.context.class_type.derived_keys:
+        if self.is_generic(keys, self.context.class_type.derived_keys):
             # Bind data to AnyElement dataclass
             return self.bind_derived_value(meta, var, value)
 
         # Bind data to a user defined dataclass
         return self.bind_complex_type(meta, var, value)
+
+    @classmethod
+    def is_generic(cls, keys: Iterable[str], generic_keys: set[str]) -> bool:
+        """Return whether the keys are the ones of a generic element.
+
+        The optional properties, qname, text, tail and type, are missing
+        when the encoder is asked to filter out the none values.
+
+        Args:
+            keys: The keys of the data dictionary
+            generic_keys: All the property names of the generic element
+        """
+        keys = set(keys)
+        optional = {"text", "tail", "type"}
+        if "children" in generic_keys:
+            # A generic element without a name groups its children
+            optional.add("qname")
+
+        return generic_keys - optional <= keys <= generic_keys
 
     def bind_text(self, meta: XmlMeta, var: XmlVar, value: Any) -> Any:
         """Bind text/tokens value entrypoint.
@@ -423,7 +442,7 @@ class DictDecoder:
             The parsed object.
         """
         qname = data["qname"]
-        xsi_type = data["type"]
+        xsi_type = data.get("type")
         params = data["value"]
 
         if var.elements:
